@@ -3,6 +3,20 @@
 use crate::core::Ctx;
 
 pub mod c01;
+pub mod sched_common;
+pub mod c35;
+pub mod c26;
+pub mod c25;
+pub mod c24;
+pub mod c23;
+pub mod c22;
+pub mod c21;
+pub mod c20;
+pub mod c31;
+pub mod c30;
+pub mod c29;
+pub mod c28;
+pub mod c27;
 pub mod c32;
 pub mod c15;
 pub mod c14;
@@ -46,7 +60,7 @@ pub const DEFAULT: PropInfo = PropInfo {
     watchdog_s: 120,
 };
 
-pub static REGISTRY: &[&PropInfo] = &[&c01::INFO, &c02::INFO, &c05::INFO, &c06::INFO, &c14::INFO, &c15::INFO, &c32::INFO];
+pub static REGISTRY: &[&PropInfo] = &[&c01::INFO, &c02::INFO, &c05::INFO, &c06::INFO, &c14::INFO, &c15::INFO, &c32::INFO, &c27::INFO, &c28::INFO, &c29::INFO, &c30::INFO, &c31::INFO, &c20::INFO, &c21::INFO, &c22::INFO, &c23::INFO, &c24::INFO, &c25::INFO, &c26::INFO, &c35::INFO];
 
 pub fn lookup(id: &str) -> Option<&'static PropInfo> {
     REGISTRY.iter().copied().find(|p| p.id == id)
